@@ -1,10 +1,12 @@
 PROP = dict(
-    coq=["Pipe/StopHarness.vo", "Pipe/WarcStopProofs.vo"],
+    coq=["Pipe/StopHarness.vo", "Pipe/WarcStopProofs.vo", "Pipe/LimiterWaitHarness.vo", "Pipe/LimiterWaitProofs.vo"],
     legs=[
         dict(driver="stop", quick=36, thorough=720, shard=12, noshrink=True,
              monitors=["stop_returns_without_crash", "no_open_warc_file_left", "warc_files_hold_complete_records_only",
                        "all_stage_workers_returned", "every_acknowledged_exchange_on_disk_after_stop",
                        "request_and_response_records_in_pairs"]),
+        dict(driver="limwait", quick=60, thorough=1500, shard=250,
+             monitors=["limiter_waiters_served_30s_plus_floor_time_after_last_answer"]),
     ],
     partial="'Bounded time' is a step bound in the model (an explicit measure) and a watchdog in the harness. The model covers the "
             "stage workers, the reactor run loop, the WARC files and the stop sequence after reactor.Freeze(); the watcher goroutines "
@@ -13,8 +15,12 @@ PROP = dict(
             "fetch goroutines, the client's dialer goroutines and WaitGroup, the WARCWriter channel, the recordWriter pool, "
             "close/rename) is a second LTS (Pipe/WarcStopLts.v) transcribed from archiver.go and the third-party warc v0.8.76 "
             "sources; what stays assumed about that library and the OS is listed under assumptions. Environment hypothesis: a "
-            "fetch in progress ends (HTTP timeouts).",
-    assumptions=["a worker that is processing a seed finishes in finitely many steps (fetch timeouts; the label LWork is always enabled)",
+            "fetch in progress ends (HTTP timeouts). The rate limiter's share of that hypothesis is proved rather than assumed: the "
+            "wait for a host's token (BucketManager.Wait, which does not watch the context) is bounded in every reachable bucket state "
+            "by the penalty cap and the refill floor (Pipe/LimiterWait.v on C13's bucket model Rate/Bucket.v; real-time polling "
+            "granularity, 50 ms, is not modelled).",
+    assumptions=["a worker that is processing a seed finishes in finitely many steps (fetch timeouts; the label LWork is always enabled) - "
+                 "for the rate limiter's wait inside archive() this is theorem C03_limiter_wait_bounded, not an assumption",
                  "third-party warc v0.8.76 behaves as its source reads (transcribed into Pipe/WarcStopLts.v): one gzip member per "
                  "record, a batch is flushed before the next receive, bufio/OS writes of a record are not torn once flushed, "
                  "rename keeps the file content; a connection is wrapped (WaitGroup.Add) only while its fetch goroutine is inside "
@@ -33,5 +39,13 @@ PROP = dict(
                "through the real controler.Stop() at every hook point / while paused / at quiescence x proxy/direct, sync/async, limiter, "
                "workers, pool, on-disk, seencheck on/off, with an independent WARC reader; both models are run from the abstracted "
                "stop state of every crawl and compared with the observation (returned, no crash, workers gone, no .open, no bad file, "
-               "one file per writer, request/response pairs, every acknowledged exchange on disk).",
+               "one file per writer, request/response pairs, every acknowledged exchange on disk). "
+               "Rate limiter: for every capacity, configured rate and every history of a host's answers (any number of consecutive 5xx, "
+               "429-class penalties, successes, polls) all n goroutines waiting for the host's token are served 30 s (penalty cap) + n "
+               "tokens' worth of time at the floor rate min(1/2, rate) after the host's last answer (2 s each in the usual configurations); "
+               "a 5xx branch without the floor is refuted by a witness (six 503: still waiting ten hours later). Tied to the code by the "
+               "limwait leg (the real tokenBucket under an injected clock: histories, then n real Wait() calls at the covered instant; the "
+               "monitor is the theorem's own statement, C03_limiter_monitor_is_theorem) and, end to end, by stop cases with the limiter on, "
+               "every row on one host that answers 503 to the whole first wave of fetches and retries (>= 5 consecutive 5xx) and the stop "
+               "request arriving when the next row of that host reaches a worker, with a bound on Stop() computed from the code's constants.",
 )
